@@ -8,7 +8,7 @@ PROP = {  # commit subject keyword -> property
     "avx sqrtf was emitted as a three-operand": "C12",
     "ldreslinl advanced its source pointer with a 64-bit lea": "C12",
     "registered in the SSE 4.1 rule set": "C11",
-    "checked-in emulator had drifted": "C04",
+    "checked-in emulator had drifted": "C04", "absl negated its 32-bit operand": "C04",
     "convussql": "C02",
     "used with two different element sizes": "C02",
     "double parameters were serialised": "C13",
